@@ -2,7 +2,7 @@ import atexit, os, shutil, signal, sys, tempfile, time, json, hashlib
 
 VERIF = os.path.dirname(os.path.dirname(os.path.abspath(__file__)))
 REPO = os.environ.get("GECS_REPO", "/repo")
-KANI_CRATE = os.path.join(VERIF, "kani_gecs")
+KANI_CRATE = os.environ.get("VERIF_KANI_CRATE") or os.path.join(VERIF, "kani_gecs")
 EVIDENCE_DIR = os.path.join(VERIF, "evidence")
 REPLAY_DIR = os.path.join(VERIF, "replays")
 KNOWN_FINDINGS = os.path.join(VERIF, "known_findings.json")
